@@ -56,7 +56,7 @@ Inductive case :=
 (* UnmarshalCertificateFromPEM(pem(banner, b)): banner 1 = v1, 2 = v2, 3 = some other banner *)
 | CPem (banner : N) (b : list N) (res : option anycert)
 (* a v2 TBS certificate whose encoding is about MaxCertificateSize bytes long (one very long group), too large to be
-   written down here: did Sign accept it, how long is Marshal(), and did all three round trips succeed *)
+   written down here: did Sign accept it, how long is (or would be) Marshal(), and did all three round trips succeed *)
 | COversize (accepted : bool) (std_len : N) (roundtrips_ok : bool).
 
 Definition sig_of (a : anycert) : list N := match a with V1 c => c_sig c | V2 c => c_sig (c2 c) end.
@@ -113,9 +113,9 @@ Definition check_case (c : case) : list N :=
       flag 1 (option_eqb any_eqb (recombine v b (Some pk) cv) res) ++
       flag 2 (match res with Some r => obeys_rules r | None => true end)
   | COversize accepted std_len ok =>
-      (* model: the decoder refuses exactly the encodings longer than MaxCertificateSize; property: what Sign
-         accepts must decode *)
-      flag 1 (negb accepted || Bool.eqb ok (std_len <=? max_certificate_size)) ++ flag 2 (negb accepted || ok)
+      (* model: SignWith accepts exactly the certificates that fit MaxCertificateSize; property: what Sign accepts
+         must decode *)
+      flag 1 (Bool.eqb accepted (std_len <=? max_certificate_size)) ++ flag 2 (negb accepted || ok)
   | CPem banner b res =>
       flag 1 (option_eqb any_eqb
                 (option_map fst (unmarshal_pem (fun _ => Some (banner, b, [])) []))
